@@ -236,6 +236,7 @@ EXTRA = {
     "C18": " Also: symmetric elements with vector/tensor valued, Piola mapped or mixed sub-elements of different degrees, symmetric elements inside mixed elements and vice versa.",
     "C19": " Also: DAGTraverser rules with keyword context (different subsets of keywords on different paths, one traverser reused across roots, shared caches): the memo key must be (node, full ordered context); the same rule tables run through MultiFunction + map_expr_dag per context.",
     "C22": " Also: mixed elements whose sub-elements have reference size != physical size (symmetric tensors, Piola vectors on an immersed mesh) in non-last position, with replace_argument True and False.",
+    "C28": " Also: weighted sums w1*x + w2*y + w3*z with pairwise different non-unit weights over components of different kinds (Form, Action, Cofunction, Matrix-Action, ...) in every order, followed by derivative / action / adjoint / replace, with histories in which components vanish under the operation (all eight vanishing patterns); TLC checks D(w1A+w2B+w3C) = w1DA+w2DB+w3DC on the model.",
     "C21": " Also: images that are numbers or zero tensors, and shape-changing maps of equal rank (2 -> 3, 2x3 -> 3x2).",
     "C25": " Universes with directional spaces of several dimensions at once (related only through an isotropic space between them).",
     "C27": " Form histories include a FormSum of cofunctions, 1.0*a and measures reconfigured with the user's metadata dicts plus degree=/scheme=.",
